@@ -1,4 +1,5 @@
 import AcraModel.Searchable.Index
+import AcraModel.Generated.SearchBind
 /-
 The query side of searchable encryption: `HashQuery.OnQuery` / `OnBind`
 (`hmac/decryptor/{postgresql,mysql}/hashQuery.go`) together with the filter that selects the
@@ -72,6 +73,10 @@ structure QCtx where
   kv : KeyView
   /-- schema: is this column configured `searchable: true` -/
   searchable : ColRef → Bool
+  /-- schema: is this column configured `consistent_tokenization: true` (such columns pass the filter
+  `filterColumnEqualComparisonExprs` and are listed by `ParseSearchQueryPlaceholdersSettings` as well;
+  `HashQuery` itself skips their items) -/
+  tokenized : ColRef → Bool := fun _ => false
 
 /-- `(from, len)` of the `substr` built for the left / right side -/
 def substrBounds (d : Dialect) (right : Bool) : Nat × Nat :=
@@ -151,7 +156,14 @@ deriving DecidableEq, Repr
 def classify (x : QCtx) (l : Operand) (op : Op) (r : Operand) : Item :=
   match l with
   | .col lc =>
-    if !x.searchable lc then .none else
+    if !x.searchable lc then
+      -- a consistently tokenized column on the left passes the filter's gate too; its item reaches HashQuery
+      -- with a searchable setting only when the right side is a searchable COLUMN (the filter then hands
+      -- over the right column's setting) – every other item of a tokenized column is skipped
+      match r with
+      | .col rc => if x.tokenized lc && x.searchable rc then .join lc rc else .none
+      | _ => .none
+    else
     match r with
     | .col rc => if x.searchable rc then .join lc rc else .none
     | .lit v => if valueOp x.d op then .value lc v else .none
@@ -203,22 +215,68 @@ def itemParams (x : QCtx) : Cond → List Nat
   | .and a b => itemParams x a ++ itemParams x b
   | .or a b => itemParams x a ++ itemParams x b
 
-/-- `replaceValuesWithHMACs`: every collected position of `acc` is replaced by the hash of the
-*original* value at that position -/
-def hashAt (x : QCtx) (values : List Bytes) : List Nat → List Bytes → Out (List Bytes)
-  | [], acc => .ok acc
-  | i :: is, acc =>
-    match values[i]? with
+/-- the `(placeholder index, column is searchable)` pairs `ParseSearchQueryPlaceholdersSettings`
+records, in walk order: `<searchable or consistently tokenized column> <=|<>|<=>> <placeholder>` -/
+def bindEntries (x : QCtx) : Cond → List (Nat × Bool)
+  | .cmp (.col lc) op (.param i) =>
+    if (x.searchable lc || x.tokenized lc) && valueOp x.d op then [(i, x.searchable lc)] else []
+  | .cmp _ _ _ => []
+  | .and a b => bindEntries x a ++ bindEntries x b
+  | .or a b => bindEntries x a ++ bindEntries x b
+
+/-- Go `m[k] = v` on a map kept as an association list without duplicate keys -/
+def assign (m : List (Nat × Bool)) (k : Nat) (v : Bool) : List (Nat × Bool) :=
+  (k, v) :: m.filter (fun e => e.1 != k)
+
+/-- `bindData`, the map `ParseSearchQueryPlaceholdersSettings` returns (a later comparison with the same
+placeholder overwrites the setting of an earlier one) -/
+def bindData (x : QCtx) (cond : Cond) : List (Nat × Bool) :=
+  (bindEntries x cond).foldl (fun m e => assign m e.1 e.2) []
+
+def bindCountsSearchableOnly (d : Dialect) : Bool :=
+  match d with
+  | .pg => SearchBind.pgBindCountsSearchableOnly
+  | .mysql => SearchBind.mysqlBindCountsSearchableOnly
+
+def replacesOnce (d : Dialect) : Bool :=
+  match d with
+  | .pg => SearchBind.pgReplacesOnce
+  | .mysql => SearchBind.mysqlReplacesOnce
+
+/-- the number `OnBind` compares with `len(indexes)`: the placeholders of searchable columns in
+`bindData` (`countOwn`), or – on the pinned tree – all of `bindData` -/
+def bindCount (countOwn : Bool) (x : QCtx) (cond : Cond) : Nat :=
+  if countOwn then ((bindData x cond).filter (·.2)).length else (bindData x cond).length
+
+/-- `replaceValuesWithHMACs`. `newValues` is a copy of the SLICE `values`: both hold the same value
+objects, so `values[i].GetData` after `newValues[i].SetData` reads the replacement (`acc` is that shared
+state). `once` = a position is replaced only the first time it is listed (`replaced` set); without it a
+placeholder used in two comparisons is hashed twice. `done` = positions replaced so far. -/
+def hashShared (x : QCtx) (once : Bool) : List Nat → List Nat → List Bytes → Out (List Bytes)
+  | [], _, acc => .ok acc
+  | i :: is, done, acc =>
+    if once && done.contains i then hashShared x once is done acc else
+    match acc[i]? with
     | none => .err
     | some v =>
       match calcHmac x v with
-      | .ok h => hashAt x values is (acc.set i h)
+      | .ok h => hashShared x once is (i :: done) (acc.set i h)
       | .err => .err
       | .panic => .panic
 
+/-- `HashQuery.OnBind` with the two regenerated switches spelled out -/
+def rewriteBindWith (countOwn once : Bool) (x : QCtx) (cond : Cond) (values : List Bytes) : Out (List Bytes) :=
+  let idxs := itemParams x cond
+  if idxs.any (fun i => values.length ≤ i) then .err
+  else if idxs.length < bindCount countOwn x cond then .ok values
+  else hashShared x once idxs [] values
+
 /-- `HashQuery.OnBind`: the bound values (decoded) → the values sent to the database -/
 def rewriteBind (x : QCtx) (cond : Cond) (values : List Bytes) : Out (List Bytes) :=
-  let idxs := itemParams x cond
-  if idxs.any (fun i => values.length ≤ i) then .err else hashAt x values idxs values
+  rewriteBindWith (bindCountsSearchableOnly x.d) (replacesOnce x.d) x cond values
+
+/-- the pinned tree's `OnBind` (regression witnesses, counterexample theorems) -/
+def legacyRewriteBind (x : QCtx) (cond : Cond) (values : List Bytes) : Out (List Bytes) :=
+  rewriteBindWith false false x cond values
 
 end AcraModel.Searchable
